@@ -156,6 +156,22 @@ theorem C14_reapply_anywhere (apps : List (String × Table)) (t r : LTy) (ns : S
   simp only [applySeq]
   rw [applySeq_fix apps t r ns tbl h hmem hcons]; rfl
 
+/-- **Re-binding: the last binding wins, for every occurrence.** Applying a namespace a second time
+    with ANOTHER table (another object set for the same namespace name) gives exactly the tree that
+    applying the second table to the original tree gives: no reference - below a list, a list of
+    lists, a map, a one-of member, an inline object, an inner scope - keeps its old target. -/
+theorem C14_rebind_last_wins (w : String) (ns : String) (tb1 tb2 : Table) (p : Path) (t t1 t2 : LTy)
+    (h1 : applyNs w tb1 ns p t = .ok t1) (h2 : applyNs w tb2 ns p t1 = .ok t2) :
+    applyNs w tb2 ns p t = .ok t2 :=
+  applyNs_overwrite w ns t tb1 tb2 p t1 t2 h1 h2
+
+/-- the same on the occurrences of a root-level call: after the second application every occurrence
+    of the namespace is linked to the entry of the SECOND table, whatever it was linked to before -/
+theorem C14_rebind_every_occurrence (ns : String) (tb1 tb2 : Table) (t t1 t2 : LTy)
+    (h1 : applyNs "" tb1 ns [] t = .ok t1) (h2 : applyNs "" tb2 ns [] t1 = .ok t2) :
+    occs "" none [] t2 = (occs "" none [] t).map (relink tb2 ns) :=
+  applyNs_occs "" ns t tb2 none [] t2 (fun _ => rfl) (applyNs_overwrite "" ns t tb1 tb2 [] t1 t2 h1 h2)
+
 /-- **`ValidateReferences` succeeds exactly when every reference is linked** - at any depth:
     `occs` lists the references below properties, list items, map keys and values, one-of members,
     and in ALL objects of every (inner) scope, reachable from the root object or not. -/
@@ -610,6 +626,8 @@ end Arca
 #print axioms Arca.C14_reapply_idempotent_bind
 #print axioms Arca.C14_applySelf_after_build
 #print axioms Arca.C14_reapply_anywhere
+#print axioms Arca.C14_rebind_last_wins
+#print axioms Arca.C14_rebind_every_occurrence
 #print axioms Arca.C14_validate_refs_iff
 #print axioms Arca.C14_run_env_is_lexical
 #print axioms Arca.C14_inline_ref
